@@ -142,6 +142,14 @@ class PipeOps(FullOps):
             return True
         if self.strict_atoms and (aa or ea) and (bb or eb):
             return aa == bb
+        # an empty set against a collection that this path has already decided to be empty
+        if not self.strict_atoms and (ea != eb):
+            other = bb if ea else aa
+            dec = getattr(self.interp.trace, "decided", {})
+            if other and all(dec.get("nonempty?" + x) is False for x in other):
+                return True
+            if other and dec.get("nonempty?" + "+".join(sorted(other))) is False:
+                return True
         return None
 
     def set_binop(self, a, op, b, node):
